@@ -302,6 +302,19 @@ class SMCSampler(MCMCSampler):
             checkpoint_callback = self.default_file_checkpoint_callback(
                 checkpoint_file_path
             )
+        elif (
+            checkpoint_callback is not None
+            and checkpoint_file_path is not None
+        ):
+            # A user callback AND a file: the file is written as well
+            user_callback = checkpoint_callback
+            file_callback = self.default_file_checkpoint_callback(
+                checkpoint_file_path
+            )
+
+            def checkpoint_callback(state):
+                file_callback(state)
+                user_callback(state)
         if checkpoint_callback is not None and checkpoint_every is None:
             checkpoint_every = 1
 
